@@ -67,3 +67,51 @@ func VerifC11Shared() {
 	}
 	vReach("end")
 }
+
+type vc11EvHost struct {
+	evs []*componentstatus.Event
+}
+
+func (h *vc11EvHost) GetExtensions() map[component.ID]component.Component { return nil }
+func (h *vc11EvHost) Report(e *componentstatus.Event)                      { h.evs = append(h.evs, e) }
+
+// VerifC11SharedHistory: a history of K reports of arbitrary statuses (longer than the wrapper's
+// memory), then an instance for another signal starts: what it is replayed is a contiguous, in-order
+// suffix of what the first instance saw, ending with the latest event — so it ends in the status the
+// component is in — and from then on both receive the same events.
+func VerifC11SharedHistory() {
+	inner := &vc11Comp{}
+	comp := &Component[*vc11Comp]{component: inner, removeFunc: func() {}}
+	h1, h2 := &vc11EvHost{}, &vc11EvHost{}
+	ctx := context.Background()
+	vAssert(comp.Start(ctx, h1) == nil, "history/first-start-ok")
+	rep := inner.host.(componentstatus.Reporter)
+	K := vParam("K")
+	n := 1 + vChoice("reports", K)
+	for i := 0; i < n; i++ {
+		switch vChoice("status", 3) {
+		case 0:
+			rep.Report(componentstatus.NewEvent(componentstatus.StatusOK))
+		case 1:
+			rep.Report(componentstatus.NewEvent(componentstatus.StatusRecoverableError))
+		default:
+			rep.Report(componentstatus.NewEvent(componentstatus.StatusPermanentError))
+		}
+	}
+	vAssert(len(h1.evs) == 1+n, "history/first-instance-receives-every-event")
+	vAssert(comp.Start(ctx, h2) == nil, "history/late-start-ok")
+	m := len(h2.evs)
+	vAssert(m >= 1 && m <= len(h1.evs), "history/late-instance-is-replayed-something-and-nothing-invented")
+	if m >= 1 && m <= len(h1.evs) {
+		off := len(h1.evs) - m
+		for i := 0; i < m; i++ {
+			vAssert(h2.evs[i] == h1.evs[off+i], "history/replay-is-the-in-order-suffix-ending-with-the-latest-event")
+		}
+		vAssert(h2.evs[m-1].Status() == h1.evs[len(h1.evs)-1].Status(), "history/late-instance-ends-in-the-current-status")
+	}
+	rep.Report(componentstatus.NewEvent(componentstatus.StatusOK))
+	vAssert(len(h2.evs) == m+1 && len(h1.evs) == n+2 && h2.evs[m] == h1.evs[n+1], "history/later-events-reach-both-instances")
+	vAssert(comp.Shutdown(ctx) == nil, "history/shutdown-ok")
+	vAssert(len(h1.evs) == n+4 && len(h2.evs) == m+3, "history/stopping-and-stopped-reach-both-instances")
+	vReach("end")
+}
